@@ -34,6 +34,7 @@ class DatasetSpec(object):
         self.probes = None
         self.spike_samples = None
         self.alf_store_samples = True   # ALF names: also write spikes.samples.npy
+        self.alf_times_custom = None    # ALF names: stored seconds that are not samples / rate (clock-synchronised)
         self.spike_templates = None
         self.spike_clusters = None
         self.amplitudes = None
@@ -106,6 +107,8 @@ class DatasetSpec(object):
 
     @property
     def alf_times(self):
+        if self.alf_times_custom is not None:
+            return self.alf_times_custom
         return self.spike_samples.astype(np.float64) / self.sample_rate
 
     def traces_truth(self):
@@ -180,7 +183,7 @@ class DatasetSpec(object):
                 dat_paths = ['raw.npy']
             else:
                 for k, p in enumerate(parts):
-                    fn = 'raw%d%s' % (k, self.raw_ext)
+                    fn = 'raw_t%d%s' % (9 + k, self.raw_ext)   # t9, t10, t11: not in lexicographic order
                     with open(d / fn, 'wb') as f:
                         f.write(b'\x5a' * self.raw_offset)
                         f.write(np.ascontiguousarray(self.raw[i:i + p]).tobytes())
@@ -203,6 +206,8 @@ class DatasetSpec(object):
             f.write('offset = %d\n' % self.raw_offset)
             f.write('sample_rate = %r\n' % float(self.sample_rate))
             f.write('hp_filtered = %r\n' % bool(self.hp_filtered))
+            if self.notes.get('template_scaling'):
+                f.write('template_scaling = %r\n' % float(self.notes['template_scaling']))
         return d / 'params.py'
 
     def describe(self):
@@ -351,7 +356,7 @@ def random_spec(rng, **o):
     elif cl == 'same':
         s.spike_clusters = s.spike_templates.copy()
     else:
-        s.spike_clusters = curate(rng, s.spike_templates, g('curation_ops', int(rng.integers(1, 5))))
+        s.spike_clusters = curate(rng, s.spike_templates, g('curation_ops', int(rng.integers(1, 5))), far=g('far_ids', 0))
     if g('amps', True):
         s.amplitudes = rng.uniform(0.5, 20., size=ns)
     feat = g('features', 'none')
@@ -398,7 +403,7 @@ def random_spec(rng, **o):
     return s
 
 
-def curate(rng, spike_templates, n_ops):
+def curate(rng, spike_templates, n_ops, far=0):
     """Apply random merges / splits / reassignments starting from clusters = templates."""
     sc = np.array(spike_templates, dtype=np.int64).copy()
     for _ in range(n_ops):
@@ -420,5 +425,5 @@ def curate(rng, spike_templates, n_ops):
             sc[idx] = int(rng.choice(ids))
         else:                                # reassign random spikes to a far-away new id
             idx = rng.permutation(len(sc))[:int(rng.integers(1, 4))]
-            sc[idx] = nxt + int(rng.integers(0, 3))
+            sc[idx] = nxt + int(rng.integers(0, 3)) + (far if rng.random() < 0.3 else 0)
     return sc
